@@ -64,11 +64,11 @@ MCInitFS ==
 \* "second": the full profile on the second archive.
 MCProfiles ==
   [n \in {"full", "strict", "dup", "dupstrict", "second"} |->
-     CASE n = "full" -> [explicit |-> FALSE, hascond |-> TRUE, cmds |-> {"probe", "cfail", "cout"}, unique |-> FALSE, dup |-> FALSE, arch |-> 1]
+     CASE n = "full" -> [explicit |-> FALSE, hascond |-> TRUE, cmds |-> {"probe", "cfail", "cout", "cpause"}, unique |-> FALSE, dup |-> FALSE, arch |-> 1]
        [] n = "strict" -> [explicit |-> TRUE, hascond |-> FALSE, cmds |-> {"probe"}, unique |-> TRUE, dup |-> FALSE, arch |-> 1]
-       [] n = "dup" -> [explicit |-> FALSE, hascond |-> TRUE, cmds |-> {"probe", "cfail", "cout"}, unique |-> FALSE, dup |-> TRUE, arch |-> 1]
+       [] n = "dup" -> [explicit |-> FALSE, hascond |-> TRUE, cmds |-> {"probe", "cfail", "cout", "cpause"}, unique |-> FALSE, dup |-> TRUE, arch |-> 1]
        [] n = "dupstrict" -> [explicit |-> TRUE, hascond |-> FALSE, cmds |-> {"probe"}, unique |-> TRUE, dup |-> TRUE, arch |-> 1]
-       [] n = "second" -> [explicit |-> FALSE, hascond |-> TRUE, cmds |-> {"probe", "cfail", "cout"}, unique |-> FALSE, dup |-> FALSE, arch |-> 2]]
+       [] n = "second" -> [explicit |-> FALSE, hascond |-> TRUE, cmds |-> {"probe", "cfail", "cout", "cpause"}, unique |-> FALSE, dup |-> FALSE, arch |-> 2]]
 MCRoots == {[coe |-> c, prof |-> n] : c \in BOOLEAN, n \in DOMAIN MCProfiles}
 MCDepthOf == [n \in DOMAIN MCProfiles |-> IF n = "full" THEN DepthMain ELSE DepthAux]
 
@@ -189,7 +189,7 @@ FlowLines == <<
   Ln("exec", <<Lit("htouch"), E>>), Ln("env", <<KV("V", <<104, 101, 108, 108, 111>>)>>), Ln("cd", <<D>>), Ln("cd", <<NX>>),
   Ln("cp", <<Lit("stdout"), B>>), Ln("cp", <<Lit("stderr"), B>>), Ln("cmp", <<Lit("stdout"), A>>), Ln("cmpenv", <<A, B>>),
   Ln("unquote", <<B>>), Ln("stdout", <<Lit("hi")>>), Not(Ln("stdout", <<Lit("hello")>>)), Ln("stderr", <<Lit("se")>>),
-  Ln("cout", <<>>), Ln("cfail", <<>>), Ln("rm", <<A>>),
+  Ln("cout", <<>>), Ln("cfail", <<>>), Ln("rm", <<A>>), Ln("cpause", <<>>),
   Ln("exec", <<Lit("hecho"), Lit("hi"), Lit("&")>>), Not(Ln("exec", <<Lit("hfail"), Lit("&")>>)), Ln("exec", <<Lit("hfail"), Lit("&n1&")>>),
   Ln("exec", <<Lit("hblock"), Lit("&")>>), Not(Ln("exec", <<Lit("hblock"), Lit("&n1&")>>)),
   Ln("wait", <<>>), Ln("wait", <<Lit("n1")>>), Ln("kill", <<>>), Ln("kill", <<Lit("-INT"), Lit("n1")>>),
